@@ -22,8 +22,8 @@ Record CodecLaws {E Sc Pk Sk} (CS : Suite E Sc Pk Sk) : Prop := {
   (* private keys and OPRF scalars, on slices of exactly the scalar length *)
   ks_canon : forall b s, length b = k_Nsk (ke CS) -> k_deser_sk (ke CS) b = Some s -> k_ser_sk (ke CS) s = b;
   os_canon : forall b s, length b = o_Nok (oprf CS) -> o_deser_s (oprf CS) b = Some s -> o_ser_s (oprf CS) s = b;
-  (* OPRF elements always encode on Noe bytes *)
-  oe_len : forall e, length (o_ser_e (oprf CS) e) = o_Noe (oprf CS);
+  (* decoded OPRF elements encode on Noe bytes *)
+  oe_len : forall b e, o_deser_e (oprf CS) b = Some e -> length (o_ser_e (oprf CS) e) = o_Noe (oprf CS);
 }.
 
 Section Strict.
@@ -55,7 +55,9 @@ Section Strict.
   Proof.
     unfold deserialize_element. intros H. inv_res. subst v.
     apply bytes_eqb_eq in Hc. split; [exact Hc|].
-    rewrite <- Hc. apply (oe_len CS LAWS).
+    rewrite <- Hc. unfold voprf_deser_elem in Hb.
+    destruct (length b <? o_Noe (oprf CS)); [discriminate|]. inv_res.
+    eapply (oe_len CS LAWS); eauto.
   Qed.
 
   Lemma pk_deserialize_strict b pk :
